@@ -19,6 +19,8 @@ Theorems (all for every program of the stated fragment, every analyzer state; no
                       whose read set contains what the node actually reads and whose modified ∪ deleted
                       set contains what it actually rebinds or deletes        (the `hgen` premise of C06/C07)
   C08_dynamic_lookup  the same through `anno?` (the lookup C06/C07 use), when annotations are unique per node
+  C08_classes_partial parameters, bound locals, declared globals/nonlocals, free variables of the root function of a
+                      tree = those of `Spec.table`, when nested functions' parameters do not leak harmfully
 The fragment `FragS` excludes comprehensions, parameter annotations, async constructs and
 `EXTRA_LOOP_TEST`; these are covered by the correspondence and the oracles only.
 -/
@@ -88,10 +90,23 @@ private theorem find_of_unique (l : List Anno) (hu : UniqueAnnos l) (i : Nat) (k
       simp only [List.find?_cons, this]
       exact ih hu.2 hm
 
-/-- **The form consumed by the dataflow properties (C06/C07)**: looking the annotation up by node id. -/
-theorem C08_dynamic_lookup (t : Stmt) (hf : FragS t = true) (hu : UniqueAnnos (analyze t).annos) :
+private theorem unique_of_bool (l : List Anno) (h : uniqueAnnos l = true) : UniqueAnnos l := by
+  induction l with
+  | nil => exact List.Pairwise.nil
+  | cons a r ih =>
+    simp only [uniqueAnnos, Bool.and_eq_true, List.all_eq_true] at h
+    refine List.Pairwise.cons ?_ (ih h.2)
+    intro b hb hab
+    have := h.1 b hb
+    simp [hab.1, hab.2] at this
+
+/-- **The form consumed by the dataflow properties (C06/C07)**: looking the annotation up by node id.
+    `uniqueAnnos`: no node was annotated twice with the same key (true whenever the serial ids are distinct and
+    no lambda sits in a class header or a `for` target, which the analysis visits twice). -/
+theorem C08_dynamic_lookup (t : Stmt) (hf : FragS t = true) (hu' : uniqueAnnos (analyze t).annos = true) :
     ∀ u ∈ stmtUnits t, ∃ c, (analyze t).anno? u.id (keyOf u.key) = some c ∧
       (∀ x ∈ u.reads, QN.sym x ∈ c.read) ∧ (∀ x ∈ u.writes, QN.sym x ∈ c.modified ∨ QN.sym x ∈ c.deleted) := by
+  have hu := unique_of_bool _ hu'
   intro u huu
   obtain ⟨c, hc, hg⟩ := C08_dynamic_partial t hf u huu
   exact ⟨c, by rw [St.anno?, find_of_unique _ hu _ _ _ hc]; rfl, hg⟩
@@ -105,26 +120,32 @@ theorem C08_dynamic_lookup (t : Stmt) (hf : FragS t = true) (hu : UniqueAnnos (a
    `argAnnotations`, `nonlocalBelow`, `globalBelow`; the Lean counterexample for the parameter leak is
    `leak_counterexample` below.
    `C08_classes_partial` proves, for the function at the root of every tree of the fragment, the equality of
-   parameters, bound locals, declared globals and declared nonlocals under `harmfulLeaks t = []` (the other
-   classes concern free variables or lie outside the fragment).
-   Missing: free variables (`frees`); functions nested below the root (the same local argument applies to them
-   through `C08_compositional_state`, what is not proved is the lookup of their annotations by node id);
-   comprehensions and annotated parameters. -/
+   parameters, bound locals, declared globals, declared nonlocals and free variables (the root has none on either
+   side) under `harmfulLeaks t = []` (the other classes concern the free variables of nested functions or lie
+   outside the fragment).
+   Missing: functions nested below the root — their parameters / bound / globals / nonlocals follow from the same
+   local argument (`functionDef_recorded`, `effSs_sets`, `collectSs_spec` hold in every statement-level state), what
+   is not proved is the lookup of their annotations by node id and the equality of their free variables, which
+   needs the propagation of `read - bound` through nested scopes; comprehensions and annotated parameters. -/
 
 /-- **Classification of the root function.**  For every function definition `t` of the fragment on which the
     analysis and Python agree statement by statement (`SpecOkS`), whose nested functions' parameters are all
-    names the function binds anyway (`harmfulLeaks t = []`): the parameters, bound locals, declared globals and
-    declared nonlocals the analysis reports for `t` are exactly those of Python's symbol table for `t`. -/
+    names the function binds anyway (`harmfulLeaks t = []`): the parameters, bound locals, declared globals,
+    declared nonlocals and free variables the analysis reports for `t` are exactly those of Python's symbol table
+    for `t` (a root function has no free variables: the analysis reports none, and the specification's are its
+    `nonlocal` declarations, of which a valid root function has none). -/
 theorem C08_classes_partial (i : Nat) (name : String) (ai : Nat) (po ar va ko kd kw df : List Expr) (body : List Stmt)
     (decos returns : List Expr) (t : Stmt)
     (ht : t = .functionDef i name (.arguments ai po ar va ko kd kw df) body decos returns false)
-    (hf : FragS t = true) (hs : SpecOkS t = true) (hu : UniqueAnnos (analyze t).annos)
+    (hf : FragS t = true) (hs : SpecOkS t = true) (hu' : uniqueAnnos (analyze t).annos = true)
     (hleak : harmfulLeaks t = []) (hd : declsDisjoint t = true) :
     ∃ cls info rest, classify t (analyze t) i [] = some cls ∧ Spec.table t = info :: rest ∧ info.id = i ∧
       (∀ x, x ∈ cls.params ↔ x ∈ info.params) ∧
       (∀ x, x ∈ cls.locals ↔ x ∈ info.locals) ∧
       (∀ x, x ∈ cls.globals ↔ x ∈ info.declaredGlobals) ∧
-      (∀ x, x ∈ cls.nonlocals ↔ x ∈ info.declaredNonlocals) := by
+      (∀ x, x ∈ cls.nonlocals ↔ x ∈ info.declaredNonlocals) ∧
+      (cls.frees = [] ∧ ∀ x, x ∈ info.frees ↔ x ∈ info.declaredNonlocals) := by
+  have hu := unique_of_bool _ hu'
   subst ht
   -- the model side
   obtain ⟨cI, ca, rest, hann, hca, hcI, hpar⟩ :=
@@ -144,7 +165,7 @@ theorem C08_classes_partial (i : Nat) (name : String) (ai : Nat) (po ar va ko kd
   have hblk := blockOf_functionDef i name ai po ar va ko kd kw df body decos returns false
   have hC := collectSs_spec body hbody hs { params := (po ++ ar ++ ko ++ va ++ kw).filterMap paramName }
   obtain ⟨new, hnew, hcov⟩ := hC.children
-  obtain ⟨info, irest, htab, hid, hip, hil, hig, hin⟩ :=
+  obtain ⟨info, irest, htab, hid, hip, hil, hig, hin, hifr⟩ :=
     analyzeBlock_head i .function name
       (collectSs body { params := (po ++ ar ++ ko ++ va ++ kw).filterMap paramName }).params
       (collectSs body { params := (po ++ ar ++ ko ++ va ++ kw).filterMap paramName }).binds
@@ -199,17 +220,18 @@ theorem C08_classes_partial (i : Nat) (name : String) (ai : Nat) (po ar va ko kd
   have hcls : ∃ cls, classify (.functionDef i name (.arguments ai po ar va ko kd kw df) body decos returns false)
       (analyze (.functionDef i name (.arguments ai po ar va ko kd kw df) body decos returns false)) i [] = some cls ∧
       cls.params = ca.paramNames.names ∧ cls.globals = cI.globals.names ∧ cls.nonlocals = cI.nonlocals.names ∧
-      cls.locals = cI.bound.names.filter (fun x => !cI.globals.names.contains x && !cI.nonlocals.names.contains x) := by
+      cls.locals = cI.bound.names.filter (fun x => !cI.globals.names.contains x && !cI.nonlocals.names.contains x) ∧
+      cls.frees = [] := by
     refine ⟨{ id := i, params := ca.paramNames.names, bound := cI.bound.names, globals := cI.globals.names,
               nonlocals := cI.nonlocals.names,
               locals := cI.bound.names.filter (fun x => !cI.globals.names.contains x && !cI.nonlocals.names.contains x),
               freeVars := cI.freeVars.names,
               frees := (cI.freeVars.names ++ cI.nonlocals.names).filter (fun x => !cI.globals.names.contains x &&
                 resolveAct (analyze (.functionDef i name (.arguments ai po ar va ko kd kw df) body decos returns false)) [] x == .enclosing) },
-            ?_, rfl, rfl, rfl, rfl⟩
+            ?_, rfl, rfl, rfl, rfl, by simp [resolveAct]⟩
     simp only [classify, h1, argsIdS, beq_self_eq_true, ↓reduceIte, Option.bind_some, Expr.id, h2]
-  obtain ⟨cls, hc0, hcp, hcg, hcn, hcl⟩ := hcls
-  refine ⟨cls, info, irest, hc0, ?_, hid, ?_, ?_, ?_, ?_⟩
+  obtain ⟨cls, hc0, hcp, hcg, hcn, hcl, hcf⟩ := hcls
+  refine ⟨cls, info, irest, hc0, ?_, hid, ?_, ?_, ?_, ?_, hcf, fun x => by rw [hifr, hin]⟩
   · simp only [Spec.table, hblk, Acc.toBlock]; exact htab
   · intro x
     rw [hcp]
@@ -251,6 +273,28 @@ example : (stmtUnits sampleTree).length = 9 := by decide
 /-- the `x += 1` node: reads and rebinds `x`, and the recorded scope says so -/
 example : ((analyze sampleTree).anno? 7 .scope).map (fun c => (c.read.contains (.sym "x"), c.modified.contains (.sym "x")))
     = some (true, true) := by decide
+
+/-- the hypotheses of `C08_classes_partial` hold for the sample tree … -/
+example : SpecOkS sampleTree = true ∧ uniqueAnnos (analyze sampleTree).annos = true ∧ harmfulLeaks sampleTree = [] ∧
+    declsDisjoint sampleTree = true := by decide
+/-- … and so does its conclusion, on both sides non-trivially: locals `{a, x, y, g}` minus nothing, parameter `a`. -/
+example : ((classify sampleTree (analyze sampleTree) 1 []).map fun c => (c.params, c.locals.length)) = some (["a"], 4) := by decide
+example : kind (table sampleTree) 1 "x" = .local ∧ kind (table sampleTree) 1 "a" = .param ∧
+    kind (table sampleTree) 16 "x" = .free := by decide
+
+/-- `def f(c): k = (lambda N: N)(1); return k + N` — the parameter `N` of the lambda leaks into `f`'s bound
+    locals, although `N` is a global name in `f`. -/
+def leakTree : Stmt :=
+  .functionDef 1 "f" (.arguments 2 [] [.arg 3 "c" []] [] [] [] [] [])
+    [ .assign 4 [.name 5 "k" .store]
+        (.call 6 (.lambda 7 (.arguments 8 [] [.arg 9 "N" []] [] [] [] [] []) (.name 10 "N" .load)) [.const 11 "int" "1"] []),
+      .ret 12 [.binop 13 "Add" (.name 14 "k" .load) (.name 15 "N" .load)] ] [] [] false
+
+theorem leak_counterexample :
+    ((classify leakTree (analyze leakTree) 1 []).map fun c => c.locals.contains "N") = some true ∧
+    kind (table leakTree) 1 "N" = .globalImplicit := by decide
+example : harmfulLeaks leakTree = ["N"] := by decide
+example : FragS leakTree = true ∧ SpecOkS leakTree = true := by decide
 
 /-- `r = [(y := t) for t in b]` rebinds `y`; the statement's scope has neither `y ∈ modified` nor `y ∈ deleted`. -/
 def walrusStmt : Stmt :=
